@@ -3,6 +3,43 @@ what counts as a non-trivial case, the theorems, and the classifier that turns a
 into a signature for known_findings.json."""
 
 PROPS = {
+    'C10': {   'assumptions': [   'updates carry each hash once (what the coordinator sends; with a duplicate the outcome depends on Go map order - recorded, '
+                       'not alarmed)',
+                       'ops are atomic (no update concurrent with a scrape)'],
+    'engines': [('sidecar', 400, 10000, ['-propok', 'c10_case', '-shardsize', '100'])],
+    'level_note': 'Trusted: Coq kernel; hand-written model tied by differential histories; the store is abstract here (bytes and crashes: C09).',
+    'level_text': 'Proof: one-step specification of an update (keys, order, state, retention, counter restart), invariants over every reachable '
+                  'state by induction over arbitrary op sequences (updates/scrapes/restarts), idle-instant and restart theorems; all closed under '
+                  'the global context. The implementation is compared with the model after every op of generated histories.',
+    'rule': 'one PRNG: histories of 1-15 ops (1-40 thorough) over 6 hashes x 3 jobs on a real TargetsManager+Service (gin in-process)+Proxy: updates '
+            '(adds, removals, state flips, repeats, empty sets, moves between jobs, 1/15 with a failing callback), proxied scrapes of assigned and '
+            'unassigned targets (ok with known kept/dropped sample counts, connection failure, HTTP 500, body breaking off; 1/12 with a stop '
+            'reason), restarts (new manager on the same store dir); observed after start-up and after every op: /targets/status/ and /runtimeinfo/. '
+            'non-trivial = history of >= 3 ops; distinct by input',
+    'theorems': 'C10_update C10_new_target C10_kept_target C10_invariant C10_idle_update C10_idle_scrape C10_store_after_ack C10_restart',
+    'trusted_base': [   'model Model/Sidecar.v hand-written from targets.go/service.go/proxy.go/status.go; tie = step-by-step differential run '
+                        '(exact equality of projected observables)',
+                        'hook VerifSetTimeNow (clock); JobInfo.Cli replaced by an in-memory RoundTripper']},
+    'C14': {   'assumptions': [   "the integer mean is Go's int64(float64(sum)/float64(n)), modelled exactly (Float64.div_round); equality with floor(sum/n) "
+                       'for sums < 2^53 is validated differentially, not proved',
+                       "relabel.Process is a function of the sample's own labels"],
+    'engines': [('sidecar', 400, 10000, ['-propok', 'c14_case', '-shardsize', '100']), ('stats', 600, 20000, ['-shardsize', '300'])],
+    'level_note': 'Trusted: Coq kernel; hand-written models; real regex engine only exercised on literal patterns in the correspondence.',
+    'level_text': 'Proof: counting theorem for every payload and every relabel function, independence of block order; window/series/total theorem '
+                  'for every per-target result sequence; runtime-info sums. Tied by differential runs through the real proxy, parser and relabeler.',
+    'rule': 'one PRNG: histories of 1-15 ops (1-40 thorough) over 6 hashes x 3 jobs on a real TargetsManager+Service (gin in-process)+Proxy: updates '
+            '(adds, removals, state flips, repeats, empty sets, moves between jobs, 1/15 with a failing callback), proxied scrapes of assigned and '
+            'unassigned targets (ok with known kept/dropped sample counts, connection failure, HTTP 500, body breaking off; 1/12 with a stop '
+            'reason), restarts (new manager on the same store dir); observed after start-up and after every op: /targets/status/ and /runtimeinfo/. '
+            'non-trivial = history of >= 3 ops; distinct by input || stats engine: 1-3 blocks of 0-6 (0-30) samples over 3 metrics x 3 optional '
+            'labels, exact duplicates, 0-2 keep/drop rules with literal regexes on __name__ or a label; real exposition parser + real '
+            'relabel.Process; non-trivial = >= 2 samples',
+    'theorems': 'C14_counts C14_block_order C14_window C14_runtime',
+    'trusted_base': [   'model Model/Sidecar.v hand-written from targets.go/service.go/proxy.go/status.go; tie = step-by-step differential run '
+                        '(exact equality of projected observables)',
+                        'hook VerifSetTimeNow (clock); JobInfo.Cli replaced by an in-memory RoundTripper',
+                        'Model/Stats.v: keep is an arbitrary function in the theorems; the correspondence instantiates it with a keep/drop '
+                        'interpreter for literal regexes']},
     'C01': {   'assumptions': [   'series/total/limits below 2^53 (float64 products exact in Base/Float64.v); int32/int64 overflow not modelled',
                        'explorer objects are not mutated within a cycle (value semantics; validated by the differential run)',
                        'time.Now() drift during the run is far below the idle-age margins used by the generator'],
@@ -149,6 +186,8 @@ def classify(prop, engine, case):
         sc = ob.get('Scales') or []
         tag = 'panic' if ob.get('Panic') else ('early-request' if len(sc) > 1 else ('scale-below-current' if sc and sc[-1] < n else 'plan'))
         return '%s-coord-%s' % (prop, tag)
+    if engine in ('sidecar', 'stats'):
+        return '%s-%s' % (prop, engine)
     if prop == 'C18':
         return 'k8s-' + str(inp.get('Kind'))
     return engine + '-unclassified'
